@@ -21,7 +21,7 @@ from bcsim import engine, node, specs
 PROP = "C11"
 LEVEL = "exploration"
 TIERS = {
-    "quick": dict(runs=480, wall=900, hashseeds=[0], node_seeds=[0, 1, 77, 4242], fault_p=0.12),
+    "quick": dict(runs=640, wall=900, hashseeds=[0], node_seeds=[0, 1, 77, 4242], fault_p=0.12),
     "thorough": dict(runs=15000, wall=6 * 3600, hashseeds=[0], node_seeds=[0, 1, 2, 3, 5, 7, 11, 13, 77, 101, 1234, 4242, 9999, 31337, 65537, 99991], fault_p=0.12),
 }
 SPECIAL_VALS = ["a;b", "k=v", "50%", "100%25", "semi%3Bcolon", "tab\there", "new\nline", "cr\rhere", "two words", "x>y", "R&D", "it's", "café", "α-helix",
